@@ -218,6 +218,21 @@ class SymEval:
             if r is not NotImplemented:
                 return r
         f = c.func
+        # a helper method of the same class (`self._get_shear(config)`) is evaluated in place: its parameters are bound to the values of
+        # the arguments, everything else (params, self, config) means what it means in the calling method
+        if isinstance(f, ast.Attribute) and isinstance(f.value, ast.Name) and f.value.id in ("self", "cls") and self.fn.cls is not None \
+                and getattr(self, "_depth", 0) < 3:
+            callee = next((k_.methods[f.attr] for k_ in [self.fn.cls] + list(self.fn.cls.mro()) if f.attr in k_.methods), None)
+            if callee is not None and not callee.name.startswith("__"):
+                ps_ = [p_ for p_ in callee.params() if p_ not in ("self", "cls")]
+                sub = SymEval(callee, self.params, env={k_: v_ for k_, v_ in self.env.items()}, call_hook=self.call_hook)
+                sub._depth = getattr(self, "_depth", 0) + 1
+                for p_, a_ in zip(ps_, c.args):
+                    sub.env[p_] = self.ev(a_) if not (isinstance(a_, ast.Name) and a_.id not in self.env) else sub.env.get(p_, a_.id)
+                for k_ in c.keywords:
+                    if k_.arg:
+                        sub.env[k_.arg] = self.ev(k_.value)
+                return sub.run()
         if isinstance(f, ast.Attribute) and self.is_np(f.value):
             name = f.attr
             args = [self.ev(a) for a in c.args]
